@@ -34,7 +34,9 @@ coroutine_local!(static K2: Counted = {
 });
 
 /// `n` coroutines set / yield / get both keys `rounds` times; the main thread uses the keys in thread context
-fn privacy(e: &'static Engine, workers: usize, n: usize, rounds: usize) {
+/// `timed`: the coroutines sleep (1 ms) or let a park time out instead of yielding, so that they continue on the timer
+/// thread - a thread that is not a worker - until their next yield
+fn privacy(e: &'static Engine, workers: usize, n: usize, rounds: usize, timed: bool) {
     rt_init(workers);
     e.begin();
     let mut hs = vec![];
@@ -47,7 +49,13 @@ fn privacy(e: &'static Engine, workers: usize, n: usize, rounds: usize) {
             for r in 0..rounds as u32 {
                 K1.with(|c| c.set(id + r));
                 K2.with(|c| c.0.set(id * 2 + r));
-                coroutine::yield_now();
+                if !timed {
+                    coroutine::yield_now();
+                } else if r % 2 == 0 {
+                    coroutine::sleep(Duration::from_millis(1));
+                } else {
+                    coroutine::park_timeout(Duration::from_millis(1));
+                }
                 if K1.with(|c| c.get()) != id + r || K2.with(|c| c.0.get()) != id * 2 + r {
                     BAD.fetch_add(1, Ordering::SeqCst);
                 }
@@ -253,9 +261,11 @@ fn fresh_start(e: &'static Engine, prev: Prev, workers: usize, detached: bool, e
 
 pub fn build(quick: bool) -> Vec<Scenario> {
     let mut v = vec![];
-    v.push(Scenario::new("C15", "privacy", "local.privacy.n2.r1.w1", Arc::new(|e| privacy(e, 1, 2, 1))));
-    v.push(Scenario::new("C15", "privacy", "local.privacy.n2.r2.w2", Arc::new(|e| privacy(e, 2, 2, 2))));
-    v.push(Scenario::new("C15", "privacy", "local.privacy.n3.r1.w2", Arc::new(|e| privacy(e, 2, 3, 1))));
+    v.push(Scenario::new("C15", "privacy", "local.privacy.n2.r1.w1", Arc::new(|e| privacy(e, 1, 2, 1, false))));
+    v.push(Scenario::new("C15", "privacy", "local.privacy.n2.r2.w2", Arc::new(|e| privacy(e, 2, 2, 2, false))));
+    v.push(Scenario::new("C15", "privacy", "local.privacy.n3.r1.w2", Arc::new(|e| privacy(e, 2, 3, 1, false))));
+    v.push(Scenario::new("C15", "privacy", "local.privacy.timed_waits.n2.r2.w1", Arc::new(|e| privacy(e, 1, 2, 2, true))));
+    v.push(Scenario::new("C15", "privacy", "local.privacy.timed_waits.n2.r2.w2", Arc::new(|e| privacy(e, 2, 2, 2, true))));
     for prev in [
         Prev::Returned,
         Prev::Panicked,
